@@ -559,6 +559,21 @@ func (env *SpecEnv) expr(e *Expr) (SV, error) {
 		if err != nil {
 			return SV{}, err
 		}
+		if len(e.Pats) > 0 && e.Kind == "forall" {
+			var pats [][]*Term
+			for _, grp := range e.Pats {
+				var ts []*Term
+				for _, pe := range grp {
+					pv, err := n.expr(pe)
+					if err != nil {
+						return SV{}, err
+					}
+					ts = append(ts, pv.t)
+				}
+				pats = append(pats, ts)
+			}
+			return SV{t: mkForallPat(bvs, body, pats...), typ: types.Typ[types.Bool]}, nil
+		}
 		return SV{t: mkQuant(e.Kind, bvs, body), typ: types.Typ[types.Bool]}, nil
 	case "count":
 		return env.count(e)
